@@ -454,6 +454,186 @@ def run_lang_corpus(ctx, exe, known):
 
 
 # ---------------------------------------------------------------------------------------------
+# context independence of a key (no model of the collation involved): the order a sort key produces
+# depends only on that key's own attributes and values, not on which sorts ran before — in the
+# same transformation, as an earlier key of the same sort, or earlier on a reused transformer.
+# Plus the part of XSLT 1.0 section 10 that needs no collation model: upper-first puts the
+# upper-case variant of two strings that are equal ignoring case first, lower-first the reverse;
+# case-order never changes the relative order of strings that differ ignoring case.
+
+CASE_ORDERS = ["", "upper-first", "lower-first"]
+CTX_LANGS = ["en", "de", "sv", "fr", "en-US", ""]
+
+
+def ctx_sort_xml(sel, lang, co, desc):
+    a = ' select="%s"' % sel
+    if lang:
+        a += ' lang="%s"' % lang
+    if co:
+        a += ' case-order="%s"' % co
+    if desc:
+        a += ' order="descending"'
+    return "<xsl:sort%s/>" % a
+
+
+def ctx_sheet(passes):
+    """passes: list of lists of xsl:sort xml (one for-each per entry); each pass prints id:pos/last, then a newline"""
+    body = '<xsl:value-of select="@id"/>:<xsl:value-of select="position()"/>/<xsl:value-of select="last()"/>,'
+    main = "".join('<xsl:for-each select="/r/n">%s%s</xsl:for-each><xsl:text>&#10;</xsl:text>' % ("".join(p), body) for p in passes)
+    return ('<xsl:stylesheet version="1.0" xmlns:xsl="%s"><xsl:output method="text"/><xsl:template match="/">%s</xsl:template></xsl:stylesheet>'
+            % (XSL, main))
+
+
+def gen_ctx_group(ctx, gid):
+    r = ctx.rng
+    lang = r.choice(CTX_LANGS)
+    desc = r.random() < 0.25
+    letters = r.choice(["ab", "abc", "abz", "bo"])
+    bases = ["a", "b", "ab"] + ["".join(r.choice(letters) for _ in range(r.choice([1, 2, 2, 3]))) for _ in range(r.randrange(1, 4))]
+    words = []
+    for b in bases:
+        for _ in range(r.choice([2, 2, 3, 4])):
+            words.append("".join(c.upper() if r.random() < 0.5 else c for c in b))
+    words += ["a", "A", "b", "B"][:r.choice([0, 2, 4])]
+    if r.random() < 0.3:
+        words += [r.choice(words), "7" + r.choice("aA"), "7"]
+    r.shuffle(words)
+    words = words[:16]
+    source = "<r>" + "".join('<n id="%d" k="%s"/>' % (i, w) for i, w in enumerate(words)) + "</r>"
+    jobs = []
+
+    def job(role, co, sheet, proc, opts=""):
+        j = {"id": "%s_%s_%s" % (gid, role, co or "none"), "role": role, "co": co, "sheet": sheet, "source": source, "proc": proc}
+        if opts:
+            j["opts"] = opts
+        jobs.append(j)
+    for co in CASE_ORDERS:
+        S = ctx_sort_xml("@k", lang, co, desc)
+        others = [c for c in CASE_ORDERS if c != co]
+        r.shuffle(others)
+        P = [ctx_sort_xml("@k", lang, c, r.random() < 0.3) for c in others]
+        job("iso", co, ctx_sheet([[S]]), "fresh")
+        # (i) a later sort of a transformation that ran other specs with the same lang before
+        job("later", co, ctx_sheet([[p] for p in P[:r.choice([1, 2])]] + [[S]]), "fresh")
+        # (ii) a later key, after a key with other attributes on which all nodes tie
+        tie = ctx_sort_xml(r.choice(["'x'", "1", "string(../@none)"]), lang, others[0], r.random() < 0.3)
+        job("key2", co, ctx_sheet([[tie, S]]), "fresh")
+        # (iii) on a reused transformer after another transformation
+        seq = "%s_seq_%s" % (gid, co or "none")
+        job("reuse-before", co, ctx_sheet([[p] for p in P]), seq, "reuse")
+        job("reuse", co, ctx_sheet([[S]]), seq, "reuse")
+    return {"gid": gid, "lang": lang, "desc": desc, "words": words, "jobs": jobs}
+
+
+def run_ctx_groups(groups, exe):
+    """fresh jobs in batches; each reuse sequence in its own process, in order"""
+    from concurrent.futures import ThreadPoolExecutor
+    fresh = [j for g in groups for j in g["jobs"] if j["proc"] == "fresh"]
+    seqs = {}
+    for g in groups:
+        for j in g["jobs"]:
+            if j["proc"] != "fresh":
+                seqs.setdefault(j["proc"], []).append(j)
+    res, _ = run_jobs(fresh, exe)
+
+    def run_seq(js):
+        rc, o, raw = core.run_lines(exe, "\n".join(xsltrun.line_of(j) for j in js) + "\n", sep="|")
+        return {j["id"]: decode_result(o.get(j["id"])) for j in js}
+    with ThreadPoolExecutor(core.NPROC) as ex:
+        for d in ex.map(run_seq, list(seqs.values())):
+            res.update(d)
+    return res
+
+
+def ctx_parse(r):
+    """last pass of the output -> [(id, pos, last)] or None"""
+    if r[0] != "ok":
+        return None
+    lines = [l for l in r[1].decode("utf-8").split("\n") if l != ""]
+    if not lines:
+        return []
+    out = []
+    for item in lines[-1].split(","):
+        if item:
+            i, rest = item.split(":")
+            p, l = rest.split("/")
+            out.append((int(i), int(p), int(l)))
+    return out
+
+
+def case_direction(x, y):
+    """x, y equal ignoring case and different: +1 if x is the upper-case variant wherever they differ,
+    -1 if the lower-case variant, 0 if mixed (no verdict)"""
+    d = set()
+    for a, b in zip(x, y):
+        if a != b:
+            d.add(1 if a.isupper() else -1)
+    return d.pop() if len(d) == 1 else 0
+
+
+def check_ctx_group(g, res):
+    """returns a list of failure texts"""
+    words, n = g["words"], len(g["words"])
+    fails = []
+    iso = {}
+    for j in g["jobs"]:
+        if j["role"] == "reuse-before":
+            continue
+        srt = ctx_parse(res[j["id"]])
+        what = "%s of <xsl:sort select=\"@k\"%s%s%s/>" % (
+            j["role"], ' lang="%s"' % g["lang"] if g["lang"] else "", ' case-order="%s"' % j["co"] if j["co"] else "", ' order="descending"' if g["desc"] else "")
+        if srt is None:
+            fails.append("%s: the transformation failed: %r" % (what, res[j["id"]]))
+            continue
+        ids = [i for i, _, _ in srt]
+        if sorted(ids) != list(range(n)) or any(p != k + 1 or l != n for k, (_, p, l) in enumerate(srt)):
+            fails.append("%s: not a permutation with position()/last() in processing order: %r" % (what, srt))
+            continue
+        for a, b in zip(ids, ids[1:]):
+            if words[a] == words[b] and a > b:
+                fails.append("%s: nodes %d and %d have the same key %r but are processed against document order" % (what, a, b, words[a]))
+        if j["role"] == "iso":
+            iso[j["co"]] = ids
+            sign = -1 if g["desc"] else 1
+            want = {"upper-first": 1, "lower-first": -1}.get(j["co"])
+            if want:
+                for x in range(n):
+                    for y in range(x + 1, n):
+                        a, b = words[ids[x]], words[ids[y]]          # a is processed before b
+                        if a != b and a.lower() == b.lower():
+                            d = case_direction(a, b)
+                            if d and d != want * sign:
+                                fails.append("%s: %r is processed before %r" % (what, a, b))
+        elif j["co"] in iso and ids != iso[j["co"]]:
+            fails.append("%s: processed as %s but the same key alone on a fresh transformer gives %s (keys %s)" % (
+                what, ids, iso[j["co"]], " ".join(words)))
+    # case-order only decides between strings that are equal ignoring case
+    if len(iso) == 3:
+        def rel(ids):
+            pos = {i: k for k, i in enumerate(ids)}
+            return {(a, b): pos[a] < pos[b] for a in range(n) for b in range(a + 1, n) if words[a].lower() != words[b].lower()}
+        base = rel(iso[""])
+        for co in ("upper-first", "lower-first"):
+            diff = [k for k, v in rel(iso[co]).items() if v != base[k]]
+            if diff:
+                a, b = diff[0]
+                fails.append("case-order=%s changes the relative order of %r and %r, which differ ignoring case" % (co, words[a], words[b]))
+    return fails
+
+
+def evaluate_ctx(ctx, groups, exe):
+    res = run_ctx_groups(groups, exe)
+    orc = []
+    for g in groups:
+        ctx.cov["evaluations"] += len(g["jobs"])
+        ctx.count("context-independence:lang=%s" % (g["lang"] or "none"), len(g["jobs"]))
+        f = check_ctx_group(g, res)
+        if f:
+            orc.append({"group": g, "what": f})
+    return orc
+
+
+# ---------------------------------------------------------------------------------------------
 
 def decode_result(r):
     if r is None:
@@ -557,6 +737,7 @@ def run(ctx):
         "collation (ICU, default locale of the process, any case-order) orders strings of single-case ASCII letters and digits by code point, the empty string first (probed on every run; Coq: a Section variable assumed to be a total preorder, instantiated by code-point order)",
         "std::stable_sort returns a permutation that is sorted and keeps equivalent elements in order whenever the comparator is a strict weak ordering (proved for the comparator; sort_unique then fixes the result)",
         "the value of a sort key's select expression for a node does not depend on when it is evaluated (the model takes the values from the library's own unsorted pass)",
+        "context-independence stream: ICU collation is deterministic for a given (locale, case-order) — the stream compares the library with itself (same key alone on a fresh transformer) and checks only the case-order rule of XSLT 1.0 section 10 on strings equal ignoring case; no collation order is assumed",
         "key values are read back through string(number): generated numerators/divisors give doubles that print exactly (integers, binary fractions, NaN, +-Infinity, -0 via 1 div x)",
     ]
     ctx.notes["rule"] = "distinct_nontrivial = distinct (sorted output sequence, key list) pairs whose processing order differs from document order"
@@ -606,6 +787,17 @@ def run(ctx):
         c2, o2 = evaluate(ctx, more, exe, model)
         corr += c2
         orc += o2
+    ngroups = 60 if not ctx.thorough else 600
+    groups = [gen_ctx_group(ctx, "g%d" % i) for i in range(ngroups)]
+    ctx_fail = evaluate_ctx(ctx, groups, exe)
+    ctx.notes["context_independence_groups"] = ngroups
+    if ctx_fail:
+        ctx_fail.sort(key=lambda o: (len(o["group"]["words"]), len(o["what"])))
+        txt = "# C16: the order produced by a sort key depends on what was sorted before / case-order semantics; replay: python3 check.py C16 --replay <this file>\n"
+        for o in ctx_fail[:10]:
+            txt += "".join("# %s\n" % w for w in o["what"][:6]) + json.dumps({"ctxgroup": o["group"]}) + "\n"
+        ctx.violation("context", txt)
+    ctx.notes["context_independence_failures"] = len(ctx_fail)
     if corr:
         ctx.broken.append("correspondence sort: %d of %d cases differ between the extracted model and the library, e.g. keys %s over %s: library %s model %s" % (
             len(corr), ctx.cov["traces_validated_against_impl"], sort_elems_xml(corr[0]["case"]), corr[0]["case"]["sel"],
@@ -627,6 +819,16 @@ def replay(ctx, path):
         if not line.strip() or line.startswith("#"):
             continue
         d = json.loads(line)
+        if "ctxgroup" in d:
+            g = d["ctxgroup"]
+            fails = check_ctx_group(g, run_ctx_groups([g], exe))
+            print("context group %s (lang=%r, keys %s):" % (g["gid"], g["lang"], " ".join(g["words"])))
+            for f in fails:
+                print("  FAIL: " + f)
+            if not fails:
+                print("  ok")
+            rc |= 1 if fails else 0
+            continue
         if "sequence" in d:
             res, seqs = run_jobs(d["sequence"], exe, chunk=len(d["sequence"]))
             bad = [j["id"] for j in d["sequence"] if res[j["id"]][0] == "crash"]
